@@ -305,10 +305,40 @@ class Unit:
 
 # ------------------------------------------------------------------------------------------------ lock skeleton of tsrm.c
 class LockSkel:
-    def __init__(self, unit):
+    def __init__(self, unit, inline_static=True):
         self.u = unit
         self.local_fns = set(unit.funcs)
         self.labels = {}
+        # file-local `static` helpers are spliced into their callers ("extract a static helper" refactorings leave the skeleton unchanged)
+        self.static_fns = set(n for n, f in unit.funcs.items() if f.get("storageClass") == "static") if inline_static else set()
+        self.inlined, self.kept_calls, self._depth = set(), set(), 0
+
+    def try_inline(self, cname, args):
+        """body of a static helper to splice in place of its call, or None.  Conditions: the arguments contain no call, the helper's only
+        return is its last statement, and its skeleton does not depend on its parameters"""
+        if cname not in self.static_fns or self._depth > 4:
+            return None
+        def has_call(n):
+            if isinstance(n, dict):
+                if n.get("kind") == "CallExpr":
+                    return True
+                return any(has_call(c) for c in n.get("inner", []) or [])
+            return False
+        if any(has_call(a) for a in args):
+            return None
+        saved = self.labels
+        self._depth += 1
+        try:
+            _, body = self.function(cname)
+        finally:
+            self._depth -= 1
+            self.labels = saved
+        if body and body[-1] == "KReturn":
+            body = body[:-1]
+        text = " ".join(body)
+        if "KReturn" in text or "KParam" in text or "CParam" in text or "KGoto" in text or "KLabel" in text:
+            return None
+        return body
 
     def karg(self, a, params):
         a = strip(a)
@@ -366,6 +396,12 @@ class LockSkel:
             pre = []
             for a in args:
                 pre += self.eff(a, params)
+            if cname in self.static_fns:
+                body = self.try_inline(cname, args)
+                if body is not None:
+                    self.inlined.add(cname)
+                    return pre + body
+                self.kept_calls.add(cname)
             if cname in self.local_fns:
                 return pre + ["(KCall %s [%s])" % (q(cname), "; ".join(self.karg(a, params) for a in args))]
             return pre + ["(KExt %s)" % q(cname)]
@@ -527,7 +563,11 @@ def _unit_job(args):
         ls = LockSkel(u)
         order = [n["name"] for n in u.decls if n.get("kind") == "FunctionDecl" and n.get("name") in u.funcs and not n["_included"]
                  and any(c.get("kind") == "CompoundStmt" for c in n.get("inner", []))]
-        res["skel"] = [(name,) + ls.function(name) for name in order]
+        skel = [(name,) + ls.function(name) for name in order]
+        # a static helper all of whose calls were spliced in has no skeleton of its own any more
+        gone = ls.inlined - ls.kept_calls
+        res["skel"] = [x for x in skel if x[0] not in gone]
+        res["inlined"] = sorted(gone)
         res["ctors"] = [name for name in order if any(isinstance(c, dict) and c.get("kind") == "ConstructorAttr" for c in u.funcs[name].get("inner", []))]
     return res
 
@@ -588,6 +628,8 @@ def tr_conc(run, objs=None):
         run.notes.append("tr_conc: src/tsrm.c is not part of the library sources")
     out.append("Definition tsrm_fns : list lkfn := [%s]." % "; ".join("lk_" + n for n in fn_names))
     ctors = byrel[TSRM].get("ctors", []) if TSRM in byrel else []
+    if TSRM in byrel and byrel[TSRM].get("inlined"):
+        out.append("(* file-local static helpers spliced into their callers: %s *)" % ", ".join(byrel[TSRM]["inlined"]))
     out.append("(* functions of src/tsrm.c that carry __attribute__((constructor)) *)")
     out.append("Definition constructors : list string := [%s]." % "; ".join(q(c) for c in ctors))
     run.write_gen("Gen_Conc.v", "\n".join(out) + "\n")
